@@ -45,6 +45,28 @@ def is_io_call(c: ast.Call) -> bool:
     return name in IO_CALLS
 
 
+
+def _fresh_instance(prog, fn, t, depth=0):
+    """t is an AirConditioner constructed here and only read: AC(...) itself, or a template built on first use and kept for the following
+    settings (`None` before the loop, `AC(...)` stored when it is None, otherwise the value carried around the loop)"""
+    t = strip(t)
+    if call_is(t, AC):
+        return True
+    if depth > 4:
+        return False
+    if t[0] == "ite":
+        return _fresh_instance(prog, fn, t[2], depth + 1) and _fresh_instance(prog, fn, t[3], depth + 1)
+    if t[0] == "loopvar":
+        s_ = summarize(prog, fn)
+        for ln, info in s_.loops.items():
+            if getattr(ln, "lineno", None) != t[2]:
+                continue
+            before = info["entry"].env.get(t[1])
+            carried = [st_.env.get(t[1]) for st_ in info["ends"] + info["continues"]]
+            return before is not None and strip(before) == ("const", None) and bool(carried) and \
+                all(c is not None and (strip(c) == t or _fresh_instance(prog, fn, c, depth + 1)) for c in carried)
+    return False
+
 def run(ctx):
     from .. import terms as _terms
     saved = _terms.OPTIONS["gate_last"]
@@ -193,7 +215,7 @@ def _run(ctx):
                 par[c] = n
         for n in (ast.walk(sl) if f_ is pf else ast.walk(f_.node)):
             t = ptl(n) if isinstance(n, ast.Call) else None
-            if t is not None and call_is(t, "getattr") and len(t[2]) >= 2 and call_is(strip(t[2][0]), AC):
+            if t is not None and call_is(t, "getattr") and len(t[2]) >= 2 and _fresh_instance(prog, f_, strip(t[2][0])):
                 st_n = n
                 while st_n in par and ppc(st_n) is None:
                     st_n = par[st_n]
@@ -563,6 +585,11 @@ def _run(ctx):
     apply_chains(ctx, "C20.e")
     from ._chains import transparent_deprecated
     transparent_deprecated(ctx, "C20.c")          # (a deprecated setting name reads the same default and writes the same attribute)
+    # ---- C20.t4 "display via toggle only when it differs": the toggle is not idempotent, so the one toggle the CLI decides on must not be
+    # retransmitted because its reply was dropped on the way up (lost in reassembly, the exchange then times out and resends).  The reassembly
+    # premises of C04 (both data_received implementations deliver every complete packet, whatever the segmentation) are re-run here.
+    from . import c04
+    ctx.import_rules(c04, "t4")
     ctx.require_min("settings_loops", 1)
     ctx.require_min("exits", 2)          # (eleven on the pinned tree; a shared reject helper legitimately leaves a handful)
     ctx.require_min("conversion_leaves", 5)
